@@ -33,7 +33,20 @@ pub struct CheckOutput {
 
 fn write_result(id: &str, tier: &str, seed: u64, outdir: &str, out: CheckOutput, wall: f64) -> i32 {
     std::fs::create_dir_all(format!("{}/replay", outdir)).ok();
-    let acc = out.acc;
+    let mut acc = out.acc;
+    // oracle self-test: structure-unaware random opcode streams judged by O1/O2, appended to the
+    // CPython cross-check of this run (only for checks that cross-check at all)
+    let mut selftest = 0u64;
+    if !acc.o3.is_empty() {
+        let n = if tier == "thorough" { 200_000 } else { 20_000 };
+        let mut rng = Rng::new(seed ^ 0x5E1F7E57);
+        for _ in 0..n {
+            let b = workload::random_stream(&mut rng);
+            let a = analysis::analyze(&b, false);
+            acc.o3.push((b, a.dis_accepts(), a.ins.len() as u32));
+            selftest += 1;
+        }
+    }
     let mut viol_json = Vec::new();
     for (n, v) in acc.violations.iter().enumerate() {
         let path = format!("{}/replay/{}-{}-{}.json", outdir, id, seed, n);
@@ -88,6 +101,7 @@ fn write_result(id: &str, tier: &str, seed: u64, outdir: &str, out: CheckOutput,
         "inconclusive": acc.inconclusive,
         "o3_file": o3_path,
         "o3_queued": acc.o3.len(),
+        "o3_selftest_streams": selftest,
     });
     std::fs::write(
         format!("{}/result-{}.json", outdir, id),
@@ -188,6 +202,21 @@ fn main() {
                 for i in &a.ins {
                     println!("{:5} {} {:?}", i.pos, i.op.name, i.arg);
                 }
+            }
+        }
+        "selftest" => {
+            // pfv selftest <seed> <n> <file>: random opcode streams + O1/O2 verdicts for dis_oracle.py
+            let seed: u64 = args[2].parse().unwrap();
+            let n: usize = args[3].parse().unwrap();
+            let mut rng = Rng::new(seed);
+            let mut f = std::io::BufWriter::new(std::fs::File::create(&args[4]).unwrap());
+            for _ in 0..n {
+                let b = workload::random_stream(&mut rng);
+                let a = analysis::analyze(&b, false);
+                f.write_all(&(b.len() as u32).to_le_bytes()).unwrap();
+                f.write_all(&b).unwrap();
+                f.write_all(&[a.dis_accepts() as u8]).unwrap();
+                f.write_all(&(a.ins.len() as u32).to_le_bytes()).unwrap();
             }
         }
         "child" => {
